@@ -12,6 +12,8 @@ pub struct Counters {
     pub zero_consume_run: AtomicUsize,
     pub max_zero_consume_run: AtomicUsize,
     pub bytes: AtomicUsize,
+    /// `fill_buf` calls answered with `WouldBlock` (see `PieceReader::block_at`)
+    pub blocked_polls: AtomicUsize,
 }
 
 /// Hands out the data in pieces ending at the scheduled cut offsets; `visible` is how much of the
@@ -23,12 +25,14 @@ pub struct PieceReader {
     pub cuts: Arc<Vec<usize>>,
     pub visible: Arc<AtomicUsize>,
     pub counters: Arc<Counters>,
+    /// a source that is not ready: from this offset on every `fill_buf` answers `ErrorKind::WouldBlock` (usize::MAX = never)
+    pub block_at: usize,
 }
 
 impl PieceReader {
     pub fn new(data: Vec<u8>, cuts: Vec<usize>) -> PieceReader {
         let n = data.len();
-        PieceReader { data: Arc::new(data), pos: 0, cuts: Arc::new(cuts), visible: Arc::new(AtomicUsize::new(n)), counters: Arc::new(Counters::default()) }
+        PieceReader { data: Arc::new(data), pos: 0, cuts: Arc::new(cuts), visible: Arc::new(AtomicUsize::new(n)), counters: Arc::new(Counters::default()), block_at: usize::MAX }
     }
     fn piece_end(&self) -> usize {
         let vis = self.visible.load(Ordering::SeqCst).min(self.data.len());
@@ -59,7 +63,14 @@ impl BufRead for PieceReader {
         if self.counters.zero_consume_run.load(Ordering::Relaxed) > SPIN_LIMIT {
             return Err(std::io::Error::new(std::io::ErrorKind::Other, "spin detected by the harness"));
         }
-        let end = self.piece_end();
+        if self.pos >= self.block_at {
+            let n = self.counters.blocked_polls.fetch_add(1, Ordering::Relaxed) + 1;
+            if n > SPIN_LIMIT {
+                return Err(std::io::Error::new(std::io::ErrorKind::Other, "spin detected by the harness (source not ready)"));
+            }
+            return Err(std::io::Error::new(std::io::ErrorKind::WouldBlock, "source not ready"));
+        }
+        let end = self.piece_end().min(self.block_at);
         let start = self.pos.min(end);
         Ok(&self.data[start..end])
     }
